@@ -20,7 +20,7 @@ PID = "C14"
 RULE = ("part A: class in {LRUCache, HybridCache, SimpleCache, DiskCache(+-LRU front, max_size None/1-3)} x max_size 1-3 x "
         "shared on/off (FakeManager) x allow_cloudpickle on/off x history of <=12 ops over 4 keys (put with unique value and "
         "tape-chosen duration incl. 0 and ties, get, in, len, clear, re-put, DiskCache reopen with possibly smaller "
-        "max_size and tape-chosen file ctimes incl. ties and backward steps, the directory wiped by another handle), stepped against an executable policy model. "
+        "max_size and tape-chosen file ctimes incl. ties and backward steps, the directory wiped by another handle, a key stored by another handle), stepped against an executable policy model. "
         "part B: 2-3 simulated processes with pickled copies of a shared LRU/Hybrid cache or a DiskCache (shared LRU front) on one directory, 2-4 ops each, pre-empted at "
         "every manager RPC. part R (about 1 case in 1000): a DiskCache directory filled by one real interpreter and reopened by a second one with "
         "another PYTHONHASHSEED, keys incl. instances of a class defined in __main__, to_hashable forms and a raw frozenset. Part A also has policy-stress "
